@@ -200,7 +200,7 @@ def check_case(case):
 
 def describe(tier):
     d = c07.describe(tier)
-    d["alphabet"] = d["alphabet"].split("; read side")[0] + "; fill histories: 1,2,3,5,9,17,34-granule files added until full (default order) and 3-granule files under 4 other orders, every intermediate image"
+    d["alphabet"] = d["alphabet"].split("; read side")[0] + "; ML / BASIC / data files of 65,535, 65,536 and 70,000 bytes (longer than their 16-bit length field) offered to an empty and a part-filled object, the buffer checked after every step; fill histories: 1,2,3,5,9,17,34-granule files added until full (default order) and 3-granule files under 4 other orders, every intermediate image"
     d["oracle"] = ("independent fsck: size 161280; every directory entry's chain stays in 0..67, is acyclic, ends in $C0+n (n<=9); chains disjoint; "
                    "every non-free FAT byte in a chain; implied length = stored stream length; ML stream = 00 len load data FF 00 00 exec in chain "
                    "order; no byte outside allocated granules / FAT sector / directory sectors differs from a blank (all $FF) image")
